@@ -48,6 +48,11 @@ func (m *LuaManager) RunLuaScript(obj *unstructured.Unstructured, script string)
 			return nil, err
 		}
 	}
+	// the base library is opened for its pure helpers (pairs, pcall, tostring, ...) only:
+	// scripts must not be able to read or execute files of the host.
+	for _, name := range []string{"dofile", "loadfile"} {
+		l.SetGlobal(name, lua.LNil)
+	}
 	ctx, cancel := context.WithTimeout(context.Background(), 1*time.Second)
 	defer cancel()
 	l.SetContext(ctx)
